@@ -125,6 +125,7 @@ package interpreter
 //@   pure
 //@   ensures[C05.num_eq] (= result (= (bigval (. n val)) (bigval (. o val))))
 //@ func interpreter.(*scriptNumber).Bytes
+//@   fresh result
 //@   loop 0 invariant (and (not (nil? cpy)) (>= (bigval cpy) 0) (or (>= (len result) 1) (> (bigval cpy) 0)))
 //@   loop 0 decreases (bigval cpy)
 //@ func interpreter.(*stack).PushInt
@@ -143,6 +144,7 @@ package interpreter
 //@   ensures[depth] (= result (len (. s stk)))
 
 //@ func interpreter.opcodeNum2bin
+//@   loop 0 invariant (or (nil? b) (fresh b))
 //@   loop 0 decreases (- (bigval (. n val)) (len b))
 
 //@ func interpreter.createThread
